@@ -474,13 +474,21 @@ func (m *c19Monitor) After(c *Chain, w *World, br *BlockResult, outs []TxOutcome
 				continue
 			}
 			m.refundForeign++
-			caller := c19Acc(fr.CallerAddress)
-			hb, ha := m.hold[caller], holdA[caller]
-			if hb == nil || ha == nil || govEnded || len(ev.completedUnbonding) > 0 {
+			// what the transaction itself paid to the caller, from the bank events of this transaction (a balance
+			// comparison over the whole block also sees staking rewards that x/distribution pays out when the
+			// BeginBlocker returns escrowed stake to the caller's delegation)
+			moves, bad := c13ParseMoves(o.Res.Events)
+			if bad {
 				continue
 			}
-			if ha.liquid.Cmp(hb.liquid) > 0 {
-				return pbt.Violf("C19/frame/refund-paid-to-caller", "block %d: MsgWithdrawFeeRefund by %s for payer %s removed the payer's refund record and the caller's liquid balance rose from %s to %s", br.Height, fr.CallerAddress, fr.PayerAddress, hb.liquid, ha.liquid)
+			got := new(big.Int)
+			for _, mv := range moves {
+				if mv.to == fr.CallerAddress && mv.from != fr.CallerAddress {
+					got.Add(got, mv.amt)
+				}
+			}
+			if got.Sign() > 0 {
+				return pbt.Violf("C19/frame/refund-paid-to-caller", "block %d: MsgWithdrawFeeRefund by %s for payer %s removed the payer's refund record and paid %s loya to the caller", br.Height, fr.CallerAddress, fr.PayerAddress, got)
 			}
 		}
 	}
